@@ -644,7 +644,7 @@ def generate(repo):
                       coqname='RepetitionExperimentKernel_estimate_tail',
                       params=[('indexing_kernels', ('list', IK)), ('dataset_size', 'Z')], body=eb[4:]))
     del env.statics[('RepetitionExperimentKernel', 'estimate_experiment_repetitions')]
-    need(len(env.float_div_sites) == 1, est, "exactly one int(a / b) site expected (assumption F9 is stated for it)")
-    out.append(f"(* int(a / b) sites (float true division, modelled as Z.quot): source line(s) {env.float_div_sites} *)")
+    need(len(env.float_div_sites) <= 1, est, "at most one int(a / b) site expected (assumption F9 is stated for it)")
+    out.append(f"(* int(a / b) sites (float true division, modelled as Z.quot): source line(s) {env.float_div_sites}; 0 sites = the `//` form, Z.div *)")
     out.append("Definition float_division_sites : Z := %d.\n" % len(env.float_div_sites))
     return "\n".join(out)
